@@ -479,6 +479,7 @@ func mClientSession(w *World, l *mLink, s *mSide, gen int) bool {
 		// (subscription and binding calls travel between the node management features: that is
 		// where their result arrives)
 		nm := s.N.Ents[0].Feats[0]
+		s.subs = append(s.subs, sub)
 		sub.callFrom = w.Stamp()
 		ctr, _ := cli.F.SubscribeToRemote(rf.Address())
 		sub.req = s.newReq(w, l, "subscribe", "", nm, ctr)
@@ -498,7 +499,6 @@ func mClientSession(w *World, l *mLink, s *mSide, gen int) bool {
 			}
 		}
 		subs = append(subs, sub)
-		s.subs = append(s.subs, sub)
 	}
 	n := w.T.Choose(8, "client-ops")
 	for i := 0; i < n && len(subs) > 0; i++ {
